@@ -168,6 +168,8 @@ def gen_cases(tier, seed):
         if size > 20 and seg == 1:
             seg = 3
         cfg = cfg_of(size, seg, rng.random() < 0.5, rng.choice(["crc32", "crc32c", "modular", "null"]), rng.choice([1, 2, 4]), rng.random() < 0.3)
+        if rng.random() < 0.3:
+            cfg["scribble_pdus"] = True  # the user edits every PDU object after it has taken its bytes
         ref, _ = reference(cfg)
         naks = {}
         names = []
